@@ -2,12 +2,21 @@ import PdfModel.Core.Proto
 import PdfModel.Model.Offsets
 import PdfModel.Drv.C02
 import PdfModel.Model.OffsetsConcrete
+import PdfModel.Model.XrefStreamSection
+import PdfModel.Model.ScanLoop
+import PdfModel.Drv.Obj
 
 /-! Line-protocol handler for the C17 streams.
 
   c17.start <hex>        → `ok <pos>` | `err`                      locateStart
   c17.xref <hex>         → `ok <value>` | `err`                    locateXref
   c17.xrefc <hex>        → `ok <value>` | `err`                    locateXrefC (the twin on `Model/Lexer.lean`)
+  c17.xrefsec <suffix-hex> <0|1>   `read_xref_and_trailer_at` on the suffix (both formats; 0|1 = allow_xref_error;
+                         a filtered cross-reference stream is `err`: the filter chain is a parameter)
+                         → `ok <subs> <trailer>` | `err` | `panic`   (subs in the C02 notation, trailer as a value)
+  c17.loadc <file-hex>   `locateStart` + `XrefSec.loadTableC` → `ok <start> <entries> <trailer>`
+  c17.scanc <file-hex> <lens>   `locateStart` + `ScanLoop.scanC` (lens as in `c03.parse`)
+                         → `ok <item> …` with items `O<id>.<gen>=<value>` | `T=<value>` | `E`
   c17.word <hex>         → `ok <lexeme-hex> <cursor>` | `err`      nextWord (cursor = bytes consumed)
   c17.usize <hex>        → `ok <n>` | `err`                        parseUsize
   c17.load <hex> <fuel> <X-table> <O-table>
@@ -29,6 +38,18 @@ import PdfModel.Model.OffsetsConcrete
 
 namespace DrvC17
 open Proto OffLex Offsets
+
+def secEnv : PdfLex.Env (List UInt8) := DrvObj.mkEnv false 0 []
+
+/-- the filter chain of a cross-reference stream is third-party: only unfiltered streams here -/
+def noFilterDec : PdfLex.Dict (List UInt8) → List UInt8 → Out (List UInt8) := fun info raw =>
+  match PdfLex.dictGet info [70, 105, 108, 116, 101, 114] with
+  | none => .ok raw
+  | some _ => .err
+
+def showSubsC (subs : List Xref.Sub) : String :=
+  if subs.isEmpty then "-" else joinWith ";" (subs.map fun s =>
+    s!"{s.first}:" ++ (if s.entries.isEmpty then "-" else joinWith "," (s.entries.map DrvC02.showEntry)))
 
 def showOutNat : Out Nat → String
   | .ok n => s!"ok {n}"
@@ -243,6 +264,37 @@ def handle (args : List String) : String :=
             | .ok (.plain v) => s!"{v.marker}"
             | .ok (.stream v a b) => s!"{v.marker}@{a}-{b}"
             | _ => "E")
+        | o => o.tag
+      | o => o.tag
+    | _, _ => "bad-request"
+  | ["c17.xrefsec", h, ae] =>
+    match bytesOfHex h, boolOf ae with
+    | some sfx, some allowErr =>
+      match XrefSec.sectionAt secEnv noFilterDec allowErr sfx with
+      | .ok (subs, tr) => s!"ok {showSubsC subs} {DrvObj.showVal (.dict tr)}"
+      | o => o.tag
+    | _, _ => "bad-request"
+  | ["c17.loadc", h] =>
+    match bytesOfHex h with
+    | some buf =>
+      match locateStart buf with
+      | .ok start =>
+        match XrefSec.loadTableC secEnv noFilterDec false (concreteP secEnv 0 noFilterDec (fun _ => .err) (fun _ => [])) 64 buf start with
+        | .ok (t, tr) => s!"ok {start} {joinWith "," (t.map DrvC02.showEntry)} {DrvObj.showVal (.dict tr)}"
+        | o => o.tag
+      | o => o.tag
+    | none => "bad-request"
+  | ["c17.scanc", h, lens] =>
+    match bytesOfHex h, DrvObj.lenMapOf lens with
+    | some buf, some lm =>
+      match locateStart buf with
+      | .ok start =>
+        match ScanLoop.scanC (DrvObj.mkEnv false 0 lm) buf start with
+        | .ok items => "ok " ++ joinWith " " (items.map fun it =>
+            match it with
+            | .obj i g v => s!"O{i}.{g}={DrvObj.showVal v}"
+            | .trailer d => s!"T={DrvObj.showVal (.dict d)}"
+            | .error => "E")
         | o => o.tag
       | o => o.tag
     | _, _ => "bad-request"
